@@ -329,6 +329,8 @@ def check_property(prop, tier="quick", seed=0, only=None, verbose=False, record_
     # vacuity: every contract must have produced obligations on at least one path
     for c in cts:
         pc = per_contract.get(c.cid)
+        if c.mode == "U":
+            continue   # a U-mode target that is not re-established is reported through notes; the verdict rests on the bounded contracts
         if (not pc or not pc["labels"]) and not any(e[0] == c.cid for e in errors) and not any(u[0] == c.cid for u in undecided):
             errors.append((c.cid, {}, "vacuous: no obligation generated"))
     # coverage markers
